@@ -197,3 +197,19 @@ self_affine(size_t x)
 	x = x * 2 + 3;
 	return (x);
 }
+
+/* rounding down to a multiple of a power of two by masking: x & ~(2^k - 1) is within 2^k - 1 below x, so rounding (len + 4095)
+ * down to a multiple of 4096 yields at least len -- and masking with ~4096 (one bit cleared) yields no such thing */
+size_t
+round_mask(size_t len)
+{
+
+	return ((len + 4095) & ~(size_t)4095);
+}
+
+size_t
+wrong_mask(size_t len)
+{
+
+	return ((len + 4095) & ~(size_t)4096);
+}
